@@ -149,7 +149,9 @@ H4V_DECL_ND(int32);
 #ifndef NUSYM_CAP
 #define NUSYM_CAP 12 /* counterexample mode / bounded runs: table size cap */
 #endif
+#ifndef NMLEN
 #define NMLEN 2 /* counterexample mode / bounded runs: name length cap */
+#endif
 
 /* key, instance and vdata object; the three "bad key" cases are input choices */
 static VDATA *
